@@ -1634,7 +1634,8 @@ class Sym:
                 if not fid.endswith(' const') or wrote:
                     # a virtual call the evaluator cannot resolve and that may change state: kept as an event
                     st.effects.append(('vcall', fid, recv, tuple(args), before))
-                return [(st, ('vcall', fid, recv, tuple(args)))]
+                extra = self.opaque_outcomes(fid, recv, args, st.fork()) if self.opaque_outcomes else []
+                return [(st, ('vcall', fid, recv, tuple(args)))] + [(s2, None) for s2 in extra]
         f = self.F.fn.get(target)
         if f is None or self.opaque(target) or f.get('ctor'):
             if f is None and callee.get('repo') and not callee.get('virtual'):
